@@ -708,6 +708,7 @@ void gp_str_to_upper_full(
     // TODO ASCII optimization would go here if not Turkish locale
 
     GPArena* scratch = gp_scratch_arena();
+    void*const scratch_entry = gp_mem_alloc((GPAllocator*)scratch, 0); // rewind point
     size_t u32_capacity = gp_str_length(*str); // this gets incremented by GP_u32_APPEND()
     GPArray(uint32_t) u32 = gp_arr_new(
         (GPAllocator*)scratch, sizeof u32[0], u32_capacity);
@@ -828,7 +829,7 @@ void gp_str_to_upper_full(
             *str + gp_str_length(*str), u32[i]);
     }
 
-    gp_arena_rewind(scratch, gp_arr_allocation(u32));
+    gp_arena_rewind(scratch, scratch_entry); // u32 may have moved
 }
 
 static bool gp_is_lithuanian_accent(uint32_t encoding)
@@ -933,6 +934,7 @@ void gp_str_to_lower_full(
     // TODO ASCII optimization would go here if not Turkish locale.
 
     GPArena* scratch = gp_scratch_arena();
+    void*const scratch_entry = gp_mem_alloc((GPAllocator*)scratch, 0); // rewind point
     size_t u32_capacity = gp_str_length(*str); // this gets incremented by GP_u32_APPEND()
     GPArray(uint32_t) u32 = gp_arr_new(
         (GPAllocator*)scratch, sizeof u32[0], u32_capacity);
@@ -1008,7 +1010,7 @@ void gp_str_to_lower_full(
             *str + gp_str_length(*str), u32[i]);
     }
 
-    gp_arena_rewind(scratch, gp_arr_allocation(u32));
+    gp_arena_rewind(scratch, scratch_entry); // u32 may have moved
 }
 
 uint32_t gp_u32_to_title(uint32_t);
@@ -1362,6 +1364,7 @@ void gp_str_sort(
         return;
     }
     GPArena* scratch = gp_scratch_arena();
+    void*const scratch_entry = gp_mem_alloc((GPAllocator*)scratch, 0); // rewind point
     GPNarrowWide* pairs = gp_mem_alloc((GPAllocator*)scratch, sizeof pairs[0] * gp_arr_length(*strs));
 
     for (size_t i = 0; i < gp_arr_length(*strs); ++i) {
@@ -1382,7 +1385,7 @@ void gp_str_sort(
     for (size_t i = 0; i < gp_arr_length(*strs); ++i)
         (*strs)[i] = pairs[i].narrow;
 
-    gp_arena_rewind(scratch, pairs);
+    gp_arena_rewind(scratch, scratch_entry);
 }
 
 int gp_str_compare(
@@ -1409,6 +1412,7 @@ int gp_str_compare(
     }
 
     GPArena* scratch = gp_scratch_arena();
+    void*const scratch_entry = gp_mem_alloc((GPAllocator*)scratch, 0); // rewind point
     GPArray(wchar_t) wcs1 = gp_arr_new(
         (GPAllocator*)scratch,
         sizeof wcs1[0],
@@ -1442,7 +1446,7 @@ int gp_str_compare(
         result = wcscmp(wcs1, wcs2);
     }
 
-    gp_arena_rewind(scratch, gp_arr_allocation(wcs1));
+    gp_arena_rewind(scratch, scratch_entry); // wcs1 may have moved
     return !reverse ? result : -result;
 }
 
